@@ -255,7 +255,9 @@ def body(chk, db, cfgname):
         allf = [f_["n"] for f_ in rec_.get("fields", []) if not f_.get("static")]
         site = "%s::serialize:every-member" % strip_targs(fs.rec)
         miss = [f_ for f_ in allf if f_ not in sent]
-        if miss:
+        if miss and not sent:
+            r4.unknown(site, fs.loc(), "serialize() mentions no data member itself (split save/load or another delegation): not followed", cfgname)
+        elif miss:
             r4.bad(site, fs.loc(), "serialize() does not transmit the member(s) %s: on every rank that receives the object instead of computing it they are default-constructed / uninitialised, and the values computed from the object differ from rank to rank" % ", ".join(miss), cfgname)
         else:
             r4.ok(site, fs.loc(), "all %d data members are transmitted" % len(allf), cfgname)
